@@ -57,14 +57,15 @@ def from_ast(stmts, strict=True):
         elif isinstance(s, qa.ClassicalDeclaration):
             if not isinstance(s.type, qa.BitType):
                 raise NotFlat("classical variable declaration")
+            init = None
             if s.init_expression is not None:
                 try:
-                    _lit(s.init_expression)
+                    init = _lit(s.init_expression)
                 except NotFlat:
                     raise NotFlat("bit declaration with unevaluated initialiser")
             if s.type.size is None and strict:
                 raise NotFlat("bit declaration without literal size")
-            ops.append(("creg", s.identifier.name, 1 if s.type.size is None else _lit(s.type.size)))
+            ops.append(("creg", s.identifier.name, 1 if s.type.size is None else _lit(s.type.size)) + (() if init is None else (("init", init),)))
         elif isinstance(s, qa.QuantumGate):
             args = []
             for a in s.arguments:
